@@ -629,3 +629,25 @@ func init() {
 			Old: "\t\tfs.byFoldedName[foldedName] = append(fs.byFoldedName[foldedName], &fs.flattened[i])\n", New: "\t\tif f.casing != caseStrict {\n\t\t\tfs.byFoldedName[foldedName] = append(fs.byFoldedName[foldedName], &fs.flattened[i])\n\t\t}\n", Rule: "FIELD-1"},
 	)
 }
+
+func init() {
+	addMutants(
+		// ---- round-h strengthening
+		Mutant{ID: "ws2-trim-forgets-carriage-return", Props: []string{"C12"}, File: "internal/jsonwire/wire.go", Func: "TrimSuffixWhitespace",
+			Old: "(b[n] == ' ' || b[n] == '\\t' || b[n] == '\\r' || b[n] == '\\n')", New: "(b[n] == ' ' || b[n] == '\\t' || b[n] == '\\n')", Rule: "WS-2"},
+		Mutant{ID: "floatconst1-range-bound-rounded", Props: []string{"C10"}, File: "jsontext/token.go", Func: "Token.Int",
+			Old: "(i64 == maxInt64 && f64 >= maxInt64+1)", New: "(i64 == maxInt64 && f64 > maxInt64)", Rule: "FLOATCONST-1"},
+		Mutant{ID: "skip1-nil-field-error-returned-under-legacy", Props: []string{"C20"}, File: "arshal_default.go", Func: "makeStructArshaler",
+			Old: "\t\t\t\t\t\tif !uo.Flags.Get(jsonflags.ReportErrorsWithLegacySemantics) {\n\t\t\t\t\t\t\treturn err\n\t\t\t\t\t\t}\n\t\t\t\t\t\terrUnmarshal = cmp.Or(errUnmarshal, err)", New: "\t\t\t\t\t\tif err != nil {\n\t\t\t\t\t\t\treturn err\n\t\t\t\t\t\t}\n\t\t\t\t\t\terrUnmarshal = cmp.Or(errUnmarshal, err)", Rule: "SKIP-1"},
+		Mutant{ID: "depth2-empty-array-fast-path", Props: []string{"C01", "C20"}, File: "jsontext/encode.go", Func: "encoderState.reformatValue",
+			Old: "\tcase '[':\n\t\treturn e.reformatArray(dst, src, depth)", New: "\tcase '[':\n\t\tif len(src) == 2 {\n\t\t\treturn append(dst, src...), 2, nil\n\t\t}\n\t\treturn e.reformatArray(dst, src, depth)", Rule: "DEPTH-2"},
+		Mutant{ID: "numwidth1-float32-token-string-64", Props: []string{"C10"}, File: "jsontext/token.go", Func: "Token.string",
+			Old: "float64(math.Float32frombits(uint32(t.num))), 32)", New: "float64(math.Float32frombits(uint32(t.num))), 64)", Rule: "NUMWIDTH-1"},
+		Mutant{ID: "scratch1-map-value-stored-only-on-success", Props: []string{"C14", "C04"}, File: "arshal_default.go", Func: "makeMapArshaler",
+			Old: "\t\t\t\tva.SetMapIndex(k.Value, v.Value)\n\t\t\t\tif seen.IsValid() {", New: "\t\t\t\tif err == nil {\n\t\t\t\t\tva.SetMapIndex(k.Value, v.Value)\n\t\t\t\t}\n\t\t\t\tif seen.IsValid() {", Rule: "SCRATCH-1"},
+		Mutant{ID: "null1-struct-merge-test-inverted", Props: []string{"C14"}, File: "arshal_default.go", Func: "makeStructArshaler",
+			Old: "\t\tcase 'n':\n\t\t\tif !uo.Flags.Get(jsonflags.MergeWithLegacySemantics) {\n\t\t\t\tva.SetZero()", New: "\t\tcase 'n':\n\t\t\tif uo.Flags.Get(jsonflags.MergeWithLegacySemantics) {\n\t\t\t\tva.SetZero()", Rule: "NULL-1"},
+		Mutant{ID: "v16-compact-writes-before-check", Props: []string{"C12", "C09"}, File: "v1/indent.go", Func: "Compact",
+			Old: "\tif err != nil {\n\t\treturn transformSyntacticError(err)\n\t}\n\tdst.Write(b)", New: "\tdst.Write(b)\n\tif err != nil {\n\t\treturn transformSyntacticError(err)\n\t}", Rule: "V1-6"},
+	)
+}
